@@ -29,6 +29,7 @@ func init() {
 			"non-trivial = tree has >= 2 inner branches and at least one outgroup rooting on a split side succeeded; distinct by start text",
 		Assumptions: []string{
 			"lengths in [1e-6,1e3] plus zeros and exact ties; path sums compared to 1e-9 relative (re-association), halves of the cut branch bitwise",
+			"negative branch lengths are not generated here: 'cut into two equal halves' and 'halfway along a longest path' are stated for lengths >= 0 (merging of branches in series with negative lengths is covered by C06 and C15)",
 			"supports compared exactly for splits carried by a single branch before and after (cut or merged branches excluded)",
 			"'several possible branches (multifurcated node)' and errors on non-split outgroups are accepted outcomes",
 		},
